@@ -325,7 +325,7 @@ func runC39(in input39) vh.Result {
 				sid++
 			}
 			mc = append(mc, multiraft.Command{SlotID: sid, HashSlot: c.hs(), Index: *idx, Term: 1, Data: data})
-			ents = append(ents, vh.App("Entry", vh.B(!c.BadSlot), vh.N(uint64(c.hs())), c.coq(), vh.Hex(data), "None"))
+			ents = append(ents, vh.App("Entry", vh.B(!c.BadSlot), vh.N(uint64(c.hs())), c.coq(), vh.Hex(data), "None", "None"))
 		}
 		return w.applyObs(mc), ents
 	}
